@@ -675,7 +675,7 @@ COMBINATORS = [
     (r"result::Result::<T, E>::(map|and_then)$", 0, 1, False),
     (r"result::Result::<T, E>::(map_err|unwrap_or_else|or_else)$", 0, 1, True),
     (r"Iterator>?::(map|filter_map|flat_map|any|all|position|find_map|map_while|for_each|fold)$", 0, 1, False),
-    (r"bool::then$", 0, 1, False),
+    (r"bool>?::then$", 0, 1, False),
 ]
 _COMBINATORS_RX = [(re.compile(rx), d, c, a) for rx, d, c, a in COMBINATORS]
 
